@@ -21,7 +21,10 @@
      hijack_clears_body : whether sendHijackReply (no body) drops a response body stored earlier
      retry_clears_reuse / setupretry_clears_reuse : whether doRetry / the !endStream branch of setupRetry clear reuseBuffer
      global_lost_cas_stops : whether the global timer callback returns whenever it loses the CAS on upstreamResponseReceived
-                             (otherwise only when the response has already started downstream) *)
+                             (otherwise only when the response has already started downstream)
+     append_error_continues : whether downStream.appendHeaders, when the downstream sender refuses the headers, only logs the error
+                             and goes on (to endStream when the reply is complete); otherwise it calls resetStream() and returns.
+                             The results of AppendData / AppendTrailers are discarded by the code (checked by the translator). *)
 From Coq Require Import List ZArith Bool Arith Lia.
 From RecordUpdate Require Import RecordSet.
 Import ListNotations RecordSetNotations.
@@ -45,7 +48,7 @@ Inductive route := RouteNone | RouteDirect (code : Z) (body : bool) | RouteNoClu
 
 Record srcp := { loop_bound : nat; min_budget : nat; reset_guarded : bool; direct_clears_again : bool; direct_cancels_retry : bool; direct_resets_upstream : bool;
   put_resets_cursor : bool; retry_checks_direct : bool; retry_refinalizes : bool; timers_reset_stream : bool; hijack_clears_body : bool;
-  retry_clears_reuse : bool; setupretry_clears_reuse : bool; global_lost_cas_stops : bool;
+  retry_clears_reuse : bool; setupretry_clears_reuse : bool; global_lost_cas_stops : bool; append_error_continues : bool;
   reason_code : reason -> Z }.
 
 Record cfg := {
@@ -56,16 +59,19 @@ Record cfg := {
   c_max_retries : Z;               (* circuit breaker max_retries; 0 = not configured *)
   c_recv : list rfilter; c_send : list sfilter;
   c_pool : list poolres;           (* result of the k-th ConnectionPool.NewStream call; PoolOk beyond the list *)
-  c_delay : list phase             (* filter phases whose first entry is slow (a filter call that takes time) *)
+  c_delay : list phase;            (* filter phases whose first entry is slow (a filter call that takes time) *)
+  (* environment input of the append steps: the downstream sender (stream layer) returns an error from AppendHeaders /
+     AppendData / AppendTrailers *)
+  c_snd_err_hdr : bool; c_snd_err_data : bool; c_snd_err_trl : bool
 }.
 
 #[export] Instance eta_cfg : Settable _ := settable! Build_cfg
   <c_oneway; c_data; c_trailers; c_route; c_nhosts; c_retry_on; c_num_retries; c_codes; c_try_timeout; c_max_retries; c_recv; c_send;
-   c_pool; c_delay>.
+   c_pool; c_delay; c_snd_err_hdr; c_snd_err_data; c_snd_err_trl>.
 #[export] Instance eta_srcp : Settable _ := settable! Build_srcp
   <loop_bound; min_budget; reset_guarded; direct_clears_again; direct_cancels_retry; direct_resets_upstream; put_resets_cursor; retry_checks_direct; retry_refinalizes;
    timers_reset_stream; hijack_clears_body; retry_clears_reuse;
-   setupretry_clears_reuse; global_lost_cas_stops; reason_code>.
+   setupretry_clears_reuse; global_lost_cas_stops; append_error_continues; reason_code>.
 
 Inductive rkind := KUp | KHijack | KDirect.
 Record resp := { r_kind : rkind; r_code : Z; r_data : bool; r_trailers : bool;
@@ -463,17 +469,22 @@ Definition end_stream : A :=
   when (fun s => negb (c_oneway c) && negb (recv_done s)) (upd (fun s => s <| reuse := false |>)) ;; clean_stream.
 Definition recv_finished : A := when (fun s => negb (req_sent s)) upreq_reset_stream ;; clean_up.
 
+(* what the append step does with the sender's result [err]: appendHeaders has an `if err != nil` block - log only (the switch),
+   or resetStream() and return; appendData / appendTrailers discard the result ([handled] = false) *)
+Definition after_append (handled err e : bool) : A :=
+  if handled && negb (append_error_continues src) && err then ds_reset_stream
+  else if e then end_stream else ret.
 Definition down_append_headers (e : bool) (r : resp) : A :=
   upd (fun s => s <| process_done := e |>) ;;
   (if c_oneway c then emit OPanic else emit (ODownHdr e (r_kind r) (r_code r))) ;;
-  (if e then end_stream else ret).
+  after_append true (c_snd_err_hdr c) e.
 Definition down_append_data (e : bool) (owner : rkind) : A :=
   upd (fun s => s <| process_done := e |>) ;;
   (if c_oneway c then emit OPanic else emit (ODownData e owner)) ;;
-  (if e then end_stream else ret).
+  after_append false (c_snd_err_data c) e.
 Definition down_append_trailers : A :=
   upd (fun s => s <| process_done := true |>) ;;
-  (if c_oneway c then emit OPanic else emit ODownTrl) ;; end_stream.
+  (if c_oneway c then emit OPanic else emit ODownTrl) ;; after_append false (c_snd_err_trl c) true.
 
 (* downStream.onUpstreamHeaders(endStream) *)
 Definition on_upstream_headers (r : resp) : A := fun s =>
